@@ -9,14 +9,17 @@ package mon
 // in order and the body must arrive unchanged; hop-by-hop headers must not cross.
 
 import (
+	"bytes"
 	"crypto/sha256"
 	"encoding/hex"
 	"fmt"
 	"net/http"
 	"reservoir/cache"
+	"reservoir/utils/verifhook"
 	"sort"
 	"strings"
 	"sync"
+	"sync/atomic"
 	"time"
 
 	"verifharness/core"
@@ -383,6 +386,110 @@ func c08Run(b core.Batch, r *core.Recorder) {
 	}
 	c08range416(b, r, mode)
 	c08revalFallback(b, r, mode)
+	c08lateBodyRead(b, r, mode)
+}
+
+// c08lateBodyRead: requests with a body whose origin answers as soon as it has the body and then sends its
+// response body in two halves, a pause in between. The upstream HTTP client reads a request body once more
+// after its last byte; the hook upstream.body.read (when the tree has it) holds every read after the first of a
+// body for 150 ms, so that this late read happens while the response is being relayed, which is the
+// interleaving a loaded machine produces by itself now and then. The client must still get the complete response.
+func c08lateBodyRead(b core.Batch, r *core.Recorder, mode rig.Mode) {
+	var reads sync.Map // body -> *atomic.Int64
+	var delayed atomic.Int64
+	verifhook.Set("upstream.body.read", func(arg any) {
+		c, _ := reads.LoadOrStore(arg, new(atomic.Int64))
+		if c.(*atomic.Int64).Add(1) >= 2 && delayed.Add(1) <= 4000 {
+			time.Sleep(150 * time.Millisecond)
+		}
+	})
+	defer verifhook.Set("upstream.body.read", nil)
+	type script struct {
+		status int
+		body   []byte
+	}
+	var mu sync.Mutex
+	scripts := map[string]script{}
+	o := rig.StartOrigin(func(w http.ResponseWriter, req *http.Request, rec *rig.OriginReq) {
+		mu.Lock()
+		sc := scripts[req.Header.Get("X-Verif-Case")]
+		mu.Unlock()
+		w.Header().Set("Content-Length", fmt.Sprint(len(sc.body)))
+		w.Header().Set("Cache-Control", "no-store")
+		w.WriteHeader(sc.status)
+		half := len(sc.body) / 2
+		w.Write(sc.body[:half])
+		if f, ok := w.(http.Flusher); ok {
+			f.Flush()
+		}
+		time.Sleep(400 * time.Millisecond)
+		w.Write(sc.body[half:])
+	})
+	defer o.Close()
+	p := rig.StartProxy(rig.ProxyOpts{Backend: b.Str("backend", "memory")})
+	defer p.Close()
+	methods := []string{"POST", "PUT", "DELETE", "PATCH"}
+	reqSizes := []int{1, 700, 5000, 40000}
+	respSizes := []int{2, 3000, 200000}
+	statuses := []int{200, 410, 301, 500}
+	type job struct {
+		id     string
+		method string
+		rs, ps int
+		status int
+	}
+	var jobs []job
+	k := 0
+	for round := 0; round < b.Int("late_rounds", 6); round++ {
+		for _, rs := range reqSizes {
+			for _, ps := range respSizes {
+				m, st := methods[k%len(methods)], statuses[(k/2)%len(statuses)]
+				jobs = append(jobs, job{fmt.Sprintf("late-%s-%d", string(mode), k), m, rs, ps, st})
+				k++
+			}
+		}
+	}
+	var wg sync.WaitGroup
+	sem := make(chan struct{}, 12)
+	for _, j := range jobs {
+		if !r.Case(j.id, map[string]any{"id": j.id, "method": j.method, "req_body_len": j.rs, "resp_body_len": j.ps, "status": j.status, "mode": string(mode)}) {
+			continue
+		}
+		wg.Add(1)
+		sem <- struct{}{}
+		go func() {
+			defer wg.Done()
+			defer func() { <-sem }()
+			body := rig.Body(4000+j.rs, 1, j.ps)
+			mu.Lock()
+			scripts[j.id] = script{j.status, body}
+			mu.Unlock()
+			q := rig.Req{Method: j.method, Target: "/late/" + j.id, Body: rig.Body(6000+j.ps, 2, j.rs), Header: [][2]string{{"X-Verif-Case", j.id}, {"Content-Type", "application/x-verif-req"}}}
+			resp := rig.Do(p, mode, o.Addr, q)
+			r.Eval(1)
+			r.Count("late_body_read_cases", 1)
+			r.Nontrivial("late-body-read", string(mode), j.method, j.rs, j.ps, j.status)
+			cs := map[string]any{"id": j.id, "method": j.method, "req_body_len": j.rs, "resp_body_len": j.ps, "status": j.status, "mode": string(mode)}
+			wit := map[string]any{"status": resp.Status, "header": resp.Header, "body_len": len(resp.Body), "err": fmt.Sprint(resp.Err), "origin_received": o.Log()}
+			switch {
+			case resp.Err != nil:
+				r.Violation("C08", "C08:resp:cut-short:request-body-read-after-answer", fmt.Sprintf("the origin answered %d with %d body bytes in two halves; the client got %d of them and then %v", j.status, j.ps, len(resp.Body), resp.Err), cs, wit)
+			case resp.Status != j.status || !bytes.Equal(resp.Body, body):
+				r.Violation("C08", "C08:resp:wrong:request-body-read-after-answer", fmt.Sprintf("the origin answered %d with %d body bytes; the client got status %d and %d bytes (equal=%v)", j.status, j.ps, resp.Status, len(resp.Body), bytes.Equal(resp.Body, body)), cs, wit)
+			}
+		}()
+	}
+	wg.Wait()
+	r.Count("late_body_reads_held_at_hook", delayed.Load())
+	for _, rq := range o.Log() {
+		id := rq.Header.Get("X-Verif-Case")
+		for _, j := range jobs {
+			if j.id == id && (rq.BodyLen != j.rs || rq.Method != j.method) {
+				r.Violation("C08", "C08:req:body:request-body-read-after-answer", fmt.Sprintf("the client sent %s with %d body bytes, the origin received %s with %d", j.method, j.rs, rq.Method, rq.BodyLen),
+					map[string]any{"id": j.id, "method": j.method, "req_body_len": j.rs, "resp_body_len": j.ps, "status": j.status, "mode": string(mode)}, map[string]any{"origin_received": rq})
+			}
+		}
+	}
 }
 
 // c08range416: the origin answers a Range request with 416 and the same request without Range with
@@ -692,14 +799,14 @@ func c08judge(r *core.Recorder, c c08case, q rig.Req, s c08script, resp *rig.Res
 }
 
 func c08Plan(tier string, seed int64) []core.Batch {
-	n := 220
+	n, late := 220, 6
 	if tier == "thorough" {
-		n = 15000
+		n, late = 15000, 60
 	}
 	var bs []core.Batch
 	for _, tr := range []string{"plain", "tunnel"} {
 		for _, be := range []string{"memory", "file"} {
-			bs = append(bs, core.Batch{Name: tr + "-" + be, TimeoutS: 1200, Args: map[string]any{"transport": tr, "backend": be, "n": n}})
+			bs = append(bs, core.Batch{Name: tr + "-" + be, TimeoutS: 1200, Args: map[string]any{"transport": tr, "backend": be, "n": n, "late_rounds": late}})
 		}
 	}
 	return bs
@@ -710,7 +817,7 @@ func init() {
 		ID:    "C08",
 		Level: "exploration",
 		Rule: "seeded generation of exchanges: method in {GET,HEAD,POST,PUT,PATCH,DELETE,OPTIONS} x 15 request-target classes (pct-encoded slash/pipe/space, semicolon, empty query, dot-segments, double slash, trailing slash, ...) x request header options (multi-valued, odd casing, Cookie, Authorization, Connection-nominated, Proxy-*, TE, end-to-end names that merely begin like hop-by-hop ones: Proxy-Trace-Id, Upgrade-Insecure-Requests, Connection-Id, ...) x request bodies (none/sized/chunked/70k-1MiB) " +
-			"x origin script: status from 25 codes incl. 3xx with Location, multi-valued Set-Cookie/Link/Vary/Warning, Connection-nominated and hop-by-hop headers, validators, cache directives, bodies (none/sized/chunked/200k); 60% of storable GETs are requested a second time so that the answer from the store is checked too; plain and tunnel transport, both backends; origins behind another intermediary (their Via / Cache-Status / X-Cache values must stay in front of the values this proxy appends); a stale entry whose revalidation is answered 503 / 404 / 200 no-store (any further request of that exchange must be a faithful copy of the unconditional client request, and the client must get the real answer, never a 304). " +
+			"x origin script: status from 25 codes incl. 3xx with Location, multi-valued Set-Cookie/Link/Vary/Warning, Connection-nominated and hop-by-hop headers, validators, cache directives, bodies (none/sized/chunked/200k); 60% of storable GETs are requested a second time so that the answer from the store is checked too; plain and tunnel transport, both backends; origins behind another intermediary (their Via / Cache-Status / X-Cache values must stay in front of the values this proxy appends); a stale entry whose revalidation is answered 503 / 404 / 200 no-store (any further request of that exchange must be a faithful copy of the unconditional client request, and the client must get the real answer, never a 304); body-carrying requests (POST/PUT/DELETE/PATCH, 1..40000 bytes) to an origin that pauses in the middle of its response body while the hook upstream.body.read holds the upstream client's reads of the request body after the first (the after-the-end read then happens while the response is being relayed). " +
 			"Every copy of the request the origin logs and the response the client parses are compared field by field. Non-trivial/distinct = distinct (transport, method, target class, status, request/response header-name sets, body shapes, round).",
 		Assumptions: []string{"headers the proxy's HTTP client adds when absent (User-Agent, Accept-Encoding) and framing (Content-Length/Transfer-Encoding) are tolerated on the request side",
 			"Age, Accept-Ranges, Date and framing headers are proxy-owned on the response side; to Via, X-Cache and Cache-Status the proxy may append, the values an upstream intermediary wrote must stay in front", "conditional request headers and Range are not generated here (C06/C07 cover them)"},
